@@ -473,7 +473,13 @@ def ops_cases(rng, n):
     """[(model case, nickel program, kind)]"""
     out = []
     for _ in range(n):
-        k = rng.weighted([("div", 3), ("mod", 3), ("pow", 5), ("substr", 5), ("slice", 5), ("at", 4), ("gen", 2), ("findall", 4), ("prio", 3)])
+        k = rng.weighted([("div", 3), ("mod", 3), ("pow", 5), ("substr", 5), ("slice", 5), ("at", 4), ("gen", 2), ("findall", 4), ("prio", 3), ("f64", 3)])
+        if k == "f64":
+            prog = rng.choice(["%%number/arccos%% %s", "%%number/arcsin%% %s", "%%number/arctan%% %s", "%%number/cos%% %s", "%%number/sin%% %s", "%%number/tan%% %s",
+                               "%%number/log%% %s 10", "%%number/log%% %s 2", "%%number/log%% %s 0.5", "%%number/log%% 8 %s", "%%number/arctan2%% %s 0", "%%number/arctan2%% 0 %s",
+                               "std.number.sqrt %s", "std.number.exp %s", "%%pow%% %s 0.5", "%%pow%% %s 1e30", "%%pow%% 1e30 %s"]) % rng.choice(RATS + EXPS[-6:])[0]
+            out.append(("-", prog, k))
+            continue
         if k == "prio":
             ps = [("| default", "B"), ("", "N"), ("| force", "T"), ("| priority 0", "0"), ("| priority 1", "1"), ("| priority -1", "-1"),
                   ("| priority 0.5", "1/2"), ("| priority -0.5", "-1/2"), ("| priority 1e20", "1" + "0" * 20), ("| priority 0.0", "0")]
@@ -542,7 +548,7 @@ def rust_ops_outcome(kind, line):
 def correspond_ops(ck, exe_model, n):
     rng = core.SplitMix64(ck.seed * 1000003 + 1010)
     cases = ops_cases(rng, n)
-    rc1, mout, e1 = core.run_lines(exe_model, [], [c[0] for c in cases], timeout=1200)
+    rc1, mout, e1 = core.run_lines(exe_model, [], [c[0] if c[0] != "-" else "gen 0" for c in cases], timeout=1200)
     rc2, rout, e2, = core.run_sharded(core.harness_bin("c10"), ["eval"], ["\t" + c[1] for c in cases], timeout=3600)
     if rc1 or rc2:
         ck.obligation("correspondence-run:ops", "internal", False, "rc=%s/%s %s %s" % (rc1, rc2, e1, e2))
@@ -551,6 +557,13 @@ def correspond_ops(ck, exe_model, n):
         ck.case(key="ops:" + mc, nontrivial=True)
         ck.hist("ops_correspondence", kind)
         rv = rust_ops_outcome(kind, r)
+        if kind == "f64":
+            # through f64: the model is parametric in the float functions; NaN / infinities must be
+            # structured errors, anything else a value - never a panic
+            ck.hist("ops_model_outcome", "f64:" + (rv.split(" ")[0] if rv.startswith(("ERR", "PANIC")) else "VAL"))
+            if rv == "PANIC":
+                ck.violation("panic:primop:f64", "float primop panicked: %s" % prog, {"case": case_line("ncl", prog.encode()), "input": prog, "impl": r})
+            continue
         if kind == "findall":
             mo = re.match(r"orig=(.*) fixed=(.*)$", m)
             orig, fixed = mo.group(1), mo.group(2)
